@@ -1,5 +1,6 @@
 import Hv.Driver.Core
 import Hv.Vmdk
+import Hv.VmdkComp
 import Hv.VmdkDesc
 import Hv.Prim.Inflate
 import Hv.Concat
@@ -48,8 +49,9 @@ def vmdkCmd (st : St) : List String → String
   | "vmdk.open" :: ids =>
     match vmdkFiles st ids >>= vmdkOpenHandles with
     | .ok (v, sps) =>
-      let desc := sps.map (fun sp => s!"[cap={sp.capacity} gs={sp.grainSize} gt={sp.gtSize} gd={sp.gd.size} k={repr sp.kind} wf={if sp.wfb then 1 else 0} wfU={if sp.wfbU then 1 else 0}]")
-      s!"ok size={v.size} disks={v.disks.size} wf={if sps.all (·.wfb) then 1 else 0} {" ".intercalate desc}"
+      let desc := sps.map (fun sp => s!"[cap={sp.capacity} gs={sp.grainSize} gt={sp.gtSize} gd={sp.gd.size} k={repr sp.kind} wf={if sp.wfb then 1 else 0} wfU={if sp.wfbU then 1 else 0} wfC={if sp.wfbC then 1 else 0}]")
+      -- thm=1: every sparse extent satisfies the hypotheses of sparse_read_correct (wfbU) or compressed_read_correct (wfbC)
+      s!"ok size={v.size} disks={v.disks.size} wf={if sps.all (·.wfb) then 1 else 0} thm={if sps.all (fun sp => sp.wfbU || sp.wfbC) then 1 else 0} {" ".intercalate desc}"
     | .error e => s!"err {e}"
   | "vmdk.concatcheck" :: align :: nids :: rest =>
     match align.toNat?, nids.toNat? with
